@@ -55,6 +55,13 @@ func init() {
 	reg("(time.Time).Add", func(in *Interp, g *Goroutine, c *callCtx) (Value, int) {
 		return done(in.mkTime(BinBV("bvadd", timeNS(c.args[0]), c.args[1].(*Term))))
 	})
+	reg("(time.Time).AddDate", func(in *Interp, g *Goroutine, c *callCtx) (Value, int) {
+		y := in.concreteInt(c.args[1].(*Term), "AddDate years")
+		m := in.concreteInt(c.args[2].(*Term), "AddDate months")
+		d := in.concreteInt(c.args[3].(*Term), "AddDate days")
+		days := int64(y)*365 + int64(m)*30 + int64(d) // calendar arithmetic approximated: only the sign and rough size matter here
+		return done(in.mkTime(BinBV("bvadd", timeNS(c.args[0]), Const(64, uint64(days*86400*1_000_000_000)))))
+	})
 	reg("(time.Time).Sub", func(in *Interp, g *Goroutine, c *callCtx) (Value, int) {
 		return done(BinBV("bvsub", timeNS(c.args[0]), timeNS(c.args[1])))
 	})
@@ -104,6 +111,8 @@ func init() {
 func (in *Interp) harnessTime(g *Goroutine, name string, c *callCtx) (Value, int, bool) {
 	a := c.args
 	switch name {
+	case "verifTime":
+		return in.mkTime(a[0].(*Term)), irDone, true
 	case "verifClock":
 		return in.now(), irDone, true
 	case "verifAdvanceClock":
